@@ -424,6 +424,10 @@ func httpValid(r Rand, _ bool) []byte {
 			target = "http://" + host + target
 		}
 	}
+	if method != "CONNECT" && target != "*" && oneIn(r, 10, "http.longline") {
+		// a request line longer than half the matching buffer (legal: a long query string)
+		target += "?q=" + rstring(r, pick(r, "http.longlen", 4200, 3000, 5000, 6500), alnum, "http.longq")
+	}
 	version := pick(r, "http.version", "HTTP/1.1", "HTTP/1.0")
 	var b strings.Builder
 	b.WriteString(method + " " + target + " " + version + eol)
